@@ -3,18 +3,20 @@ package c01
 // modelop.go: the `e2e` protocol line — the abstraction of a real history
 // (layer entries with content ids, and the scanners as the table of what the
 // REAL scanners read out of each file) is handed to the Lean model, which
-// answers with Tame?, indexModel and scanImage; the implementation's answer is
-// what the real controller reported, what the real scanners found on the
-// flattened image, and this file's own evaluation of the predicate Tame
+// answers with Tame?, indexModel, scanImage and imageDist; the implementation's
+// answer is what the real controller reported, what the real scanners found on
+// the flattened image, and this file's own evaluation of the predicate Tame
 // (a transcription of `tameB`, Model/LayerFS.lean).
 
 import (
+	"context"
 	"fmt"
 	"path"
 	"sort"
 	"strings"
 
 	"github.com/quay/claircore"
+	"github.com/quay/claircore/indexer"
 	"github.com/quay/claircore/verifharness/internal/hx"
 )
 
@@ -39,10 +41,43 @@ type absLayer struct {
 
 type absPkg struct{ ID, DB, FP string }
 
+// osEco is one OS package database ecosystem of the abstraction.
+type osEco struct {
+	Rhel     bool   // coalesced by rhel.Coalescer
+	DB       string // path of the database file (= the abstract package database name)
+	DistFile string // the file the ecosystem's distribution scanner reads
+	EcoIdx   int    // index into ecosystems()
+}
+
+// the OS ecosystems of ecosystems(): database file, PackageDB string the real scanner reports,
+// distribution file
+const (
+	rpmDBFile = "var/lib/rpm/Packages.db"
+	rpmDBName = "ndb:var/lib/rpm"
+)
+
+var osEcos = []osEco{
+	{false, dpkgDB, "etc/os-release", 0},
+	{false, apkDB, "etc/os-release", 1},
+	{true, rpmDBFile, "etc/redhat-release", 2},
+	{false, rpmDBFile, "etc/os-release", 3},
+}
+
+// absDB maps the PackageDB string of a real package to the abstraction's database name.
+func absDB(db string) string {
+	if db == rpmDBName {
+		return rpmDBFile
+	}
+	return db
+}
+
+// fileEcoIdx: the file ecosystems of ecosystems(), in order.
+var fileEcoIdx = []int{4, 5, 6, 7, 8}
+
 type absScan struct {
-	dbs   []string
-	os    map[string][]string     // content id -> package ids
-	files map[[2]string][2]string // (path, content id) -> (id, db)
+	os    map[string][]string           // content id -> package ids (OS databases)
+	files map[[3]string][][2]string     // (eco, path, content id) -> (id, db)…
+	dists map[[3]string]string          // (rh, db, content id) -> distribution
 }
 
 func (l absLayer) find(q string) *absEntry {
@@ -96,15 +131,35 @@ func (l absLayer) hides(q string) bool {
 	return false
 }
 
-func (s absScan) langPkgs(l absLayer) []absPkg {
+func (l absLayer) sameEntries(o absLayer) bool {
+	if len(l.Entries) != len(o.Entries) {
+		return false
+	}
+	for i := range l.Entries {
+		if l.Entries[i] != o.Entries[i] {
+			return false
+		}
+	}
+	return true
+}
+
+func (s absScan) filePkgs(eco string, l absLayer) []absPkg {
 	var out []absPkg
 	for _, e := range l.Entries {
 		if e.Dir || isWhiteoutPath(e.Path) {
 			continue
 		}
-		if v, ok := s.files[[2]string{e.Path, e.CID}]; ok {
+		for _, v := range s.files[[3]string{eco, e.Path, e.CID}] {
 			out = append(out, absPkg{ID: v[0], DB: v[1], FP: e.Path})
 		}
+	}
+	return out
+}
+
+func fileEcoNames() []string {
+	var out []string
+	for _, i := range fileEcoIdx {
+		out = append(out, ecoNames[i])
 	}
 	return out
 }
@@ -114,14 +169,12 @@ func tameGo(s absScan, layers []absLayer) bool { return tameClause(s, layers) ==
 
 // tameClause names the first clause of Tame that fails ("" = Tame holds).
 func tameClause(s absScan, layers []absLayer) string {
-	count := map[string]int{}
-	for _, l := range layers {
-		count[l.Hash]++
-	}
-	for _, l := range layers { // hashes: a layer with a whiteout or a language package occurs once
-		all, _ := l.whiteoutsOf()
-		if (len(all) > 0 || len(s.langPkgs(l)) > 0) && count[l.Hash] != 1 {
-			return "hashes"
+	ecos := fileEcoNames()
+	for _, l := range layers { // digests: layers with one digest have the same entries
+		for _, l2 := range layers {
+			if l.Hash == l2.Hash && !l.sameEntries(l2) {
+				return "digests"
+			}
 		}
 	}
 	for _, l := range layers { // paths
@@ -144,13 +197,18 @@ func tameClause(s absScan, layers []absLayer) string {
 			}
 		}
 	}
-	var allLang []absPkg
-	for _, l := range layers {
-		allLang = append(allLang, s.langPkgs(l)...)
+	perEco := map[string][][]absPkg{} // eco -> per layer packages
+	var allFile []absPkg
+	for _, eco := range ecos {
+		for _, l := range layers {
+			ps := s.filePkgs(eco, l)
+			perEco[eco] = append(perEco[eco], ps)
+			allFile = append(allFile, ps...)
+		}
 	}
 	for _, l := range layers { // hidesSpec
 		_, wf := l.whiteoutsOf()
-		for _, p := range allLang {
+		for _, p := range allFile {
 			byWh := false
 			for _, w := range wf {
 				if covers(w, p.FP) {
@@ -162,17 +220,22 @@ func tameClause(s absScan, layers []absLayer) string {
 			}
 		}
 	}
-	for _, d := range s.dbs { // osDb, disjoint
+	seenDB := map[string]bool{}
+	for _, oe := range osEcos { // osDb, disjoint
+		if seenDB[oe.DB] {
+			continue
+		}
+		seenDB[oe.DB] = true
 		for _, l := range layers {
-			if l.hides(d) {
+			if l.hides(oe.DB) {
 				return "osDb"
 			}
-			if c, ok := l.fileOf(d); ok {
+			if c, ok := l.fileOf(oe.DB); ok {
 				if len(s.os[c]) == 0 {
 					return "osDb"
 				}
 				for _, id := range s.os[c] {
-					for _, p := range allLang {
+					for _, p := range allFile {
 						if p.ID == id {
 							return "disjoint"
 						}
@@ -181,34 +244,101 @@ func tameClause(s absScan, layers []absLayer) string {
 			}
 		}
 	}
-	for i := range layers { // noOverwrite
-		for j := i + 1; j < len(layers); j++ {
-			for _, e := range layers[i].Entries {
-				c, ok := layers[i].fileOf(e.Path)
-				if !ok {
-					continue
-				}
-				v, ok := s.files[[2]string{e.Path, c}]
-				if !ok {
-					continue
-				}
-				if c2, ok := layers[j].fileOf(e.Path); ok {
-					v2, ok := s.files[[2]string{e.Path, c2}]
-					if (!ok || v2[0] != v[0]) && !layers[j].hides(e.Path) {
-						return "noOverwrite"
+	for _, eco := range ecos { // noOverwrite
+		for i := range layers {
+			for j := i + 1; j < len(layers); j++ {
+				for _, e := range layers[i].Entries {
+					c, ok := layers[i].fileOf(e.Path)
+					if !ok {
+						continue
+					}
+					old := s.files[[3]string{eco, e.Path, c}]
+					if len(old) == 0 {
+						continue
+					}
+					if c2, ok := layers[j].fileOf(e.Path); ok && !layers[j].hides(e.Path) {
+						now := map[string]bool{}
+						for _, v := range s.files[[3]string{eco, e.Path, c2}] {
+							now[v[0]] = true
+						}
+						for _, v := range old {
+							if !now[v[0]] {
+								return "noOverwrite"
+							}
+						}
 					}
 				}
 			}
 		}
 	}
-	for _, p := range allLang { // onePath
-		for _, q := range allLang {
-			if p.ID == q.ID && p.FP != q.FP {
-				return "onePath"
+	for _, eco := range ecos { // onePath
+		var all []absPkg
+		for _, ps := range perEco[eco] {
+			all = append(all, ps...)
+		}
+		for _, p := range all {
+			for _, q := range all {
+				if p.ID == q.ID && (p.FP != q.FP || p.DB != q.DB) {
+					return "onePath"
+				}
+			}
+		}
+	}
+	for i, e1 := range ecos { // ecosApart
+		for _, e2 := range ecos[i+1:] {
+			for _, ps := range perEco[e1] {
+				for _, p := range ps {
+					for _, qs := range perEco[e2] {
+						for _, q := range qs {
+							if p.ID == q.ID {
+								return "ecosApart"
+							}
+						}
+					}
+				}
+			}
+		}
+	}
+	for _, eco := range ecos { // goDb
+		if !strings.HasPrefix(eco, "*") {
+			continue
+		}
+		for _, ps := range perEco[eco] {
+			for _, p := range ps {
+				if !strings.HasPrefix(p.DB, "go:") {
+					return "goDb"
+				}
 			}
 		}
 	}
 	return ""
+}
+
+// sharedAcrossEcos: some package id is found by two ecosystems (clauses ecosApart / disjoint of Tame).
+func sharedAcrossEcos(s absScan, layers []absLayer) bool {
+	owner := map[string]string{}
+	clash := false
+	note := func(id, eco string) {
+		if o, ok := owner[id]; ok && o != eco {
+			clash = true
+		}
+		owner[id] = eco
+	}
+	for _, l := range layers {
+		for _, eco := range fileEcoNames() {
+			for _, p := range s.filePkgs(eco, l) {
+				note(p.ID, eco)
+			}
+		}
+		for _, oe := range osEcos {
+			if c, ok := l.fileOf(oe.DB); ok {
+				for _, id := range s.os[c] {
+					note(id, "os:"+oe.DB)
+				}
+			}
+		}
+	}
+	return clash
 }
 
 func sortDedup(xs []string) []string {
@@ -222,10 +352,45 @@ func sortDedup(xs []string) []string {
 	return out
 }
 
+// distName is the abstraction's name of a distribution (store ids differ between the two stores).
+func distName(d *claircore.Distribution) string {
+	if d == nil {
+		return "-"
+	}
+	n := d.DID + "-" + d.VersionID
+	if d.DID == "" {
+		n = d.Name + "-" + d.Version
+	}
+	return strings.NewReplacer(" ", "_", ",", "_", "~", "_", "=", "_", "|", "_", ";", "_", ":", "_", "#", "_", "@", "_").Replace(n)
+}
+
+// per-ecosystem artifacts of one layer, read back from the store
+func ecoLayerPkgs(res indexResult, ei int, digest string) []*claircore.Package {
+	ctx := context.Background()
+	ps, _ := ecosystems(ctx)[ei].PackageScanners(ctx)
+	var vs indexer.VersionedScanners
+	vs.PStoVS(ps)
+	out, _ := res.Store.PackagesByLayer(ctx, claircore.MustParseDigest(digest), vs)
+	return out
+}
+
+func ecoLayerDists(res indexResult, ei int, digest string) []*claircore.Distribution {
+	ctx := context.Background()
+	ds, _ := ecosystems(ctx)[ei].DistributionScanners(ctx)
+	var vs indexer.VersionedScanners
+	vs.DStoVS(ds)
+	out, _ := res.Store.DistributionsByLayer(ctx, claircore.MustParseDigest(digest), vs)
+	return out
+}
+
+// e2eModel is what opE2EModel found out about one scenario.
+type e2eModel struct {
+	Tame       bool // the abstraction applies and is inside the hypothesis Tame
+	DistStable bool // every OS ecosystem's distribution scanner finds at most one distribution, in all layers and on the image
+}
+
 // opE2EModel emits the `e2e` line for one scenario.
-// It reports whether the history is inside the hypothesis Tame of
-// index_eq_flatten_partial (false when the abstraction does not apply).
-func opE2EModel(r *hx.Run, sc *scenario, idx, fl indexResult, digests []string, flat layerFS) bool {
+func opE2EModel(r *hx.Run, sc *scenario, idx, fl indexResult, digests []string, flat layerFS) e2eModel {
 	cids := map[string]string{}
 	cid := func(b []byte) string {
 		k := string(b)
@@ -258,71 +423,134 @@ func opE2EModel(r *hx.Run, sc *scenario, idx, fl indexResult, digests []string, 
 	flatDigest := digestOfBytes(flat.tarBytes())
 
 	// the scanners, as the table of what the real scanners read
-	s := absScan{dbs: []string{dpkgDB, apkDB}, os: map[string][]string{}, files: map[[2]string][2]string{}}
+	s := absScan{os: map[string][]string{}, files: map[[3]string][][2]string{}, dists: map[[3]string]string{}}
 	consistent := true
-	record := func(l absLayer, pkgs []*claircore.Package) {
-		osIDs := map[string][]string{}
-		got := map[string]bool{}
-		for _, p := range pkgs {
-			if p.Filepath == "" {
-				osIDs[p.PackageDB] = append(osIDs[p.PackageDB], identityStr(p))
-				continue
+	distStable := true
+	distSeen := map[int]map[string]bool{}
+	record := func(l absLayer, res indexResult, digest string) {
+		// OS databases: every ecosystem reading the file must read the same packages
+		for _, oe := range osEcos {
+			pkgs := ecoLayerPkgs(res, oe.EcoIdx, digest)
+			var ids []string
+			for _, p := range pkgs {
+				if p.Filepath != "" || absDB(p.PackageDB) != oe.DB {
+					continue
+				}
+				ids = append(ids, identityStr(p))
 			}
-			c, ok := l.fileOf(p.Filepath)
-			if !ok {
-				consistent = false
-				continue
-			}
-			k := [2]string{p.Filepath, c}
-			v := [2]string{identityStr(p), p.PackageDB}
-			if old, ok := s.files[k]; ok && old != v {
-				consistent = false
-			}
-			s.files[k] = v
-			got[p.Filepath] = true
-		}
-		for _, d := range s.dbs {
-			if c, ok := l.fileOf(d); ok {
-				ids := sortDedup(osIDs[d])
+			ids = sortDedup(ids)
+			if c, ok := l.fileOf(oe.DB); ok {
 				if old, ok := s.os[c]; ok && strings.Join(old, "+") != strings.Join(ids, "+") {
 					consistent = false
 				}
 				s.os[c] = ids
-			} else if len(osIDs[d]) > 0 {
+			} else if len(ids) > 0 {
 				consistent = false
 			}
+			// distributions
+			ds := ecoLayerDists(res, oe.EcoIdx, digest)
+			if len(ds) > 1 {
+				consistent = false
+			}
+			if distSeen[oe.EcoIdx] == nil {
+				distSeen[oe.EcoIdx] = map[string]bool{}
+			}
+			for _, d := range ds {
+				distSeen[oe.EcoIdx][distName(d)] = true
+			}
+			if _, ok := l.fileOf(oe.DistFile); ok && len(ds) == 0 {
+				distSeen[oe.EcoIdx]["-"] = true
+			}
+			rh := "0"
+			if oe.Rhel {
+				rh = "1"
+			}
+			if c, ok := l.fileOf(oe.DistFile); ok {
+				k := [3]string{rh, oe.DB, c}
+				v := "-"
+				if len(ds) == 1 {
+					v = distName(ds[0])
+				}
+				if old, ok := s.dists[k]; ok && old != v {
+					consistent = false
+				}
+				s.dists[k] = v
+			} else if len(ds) > 0 {
+				consistent = false // the scanner read another file
+			}
 		}
-		_ = got
+		// file ecosystems
+		for _, ei := range fileEcoIdx {
+			eco := ecoNames[ei]
+			pkgs := ecoLayerPkgs(res, ei, digest)
+			byFile := map[string][][2]string{}
+			for _, p := range pkgs {
+				if _, ok := l.fileOf(p.Filepath); !ok {
+					consistent = false
+					continue
+				}
+				byFile[p.Filepath] = append(byFile[p.Filepath], [2]string{identityStr(p), p.PackageDB})
+			}
+			for fp, vs := range byFile {
+				c, _ := l.fileOf(fp)
+				sort.Slice(vs, func(i, j int) bool { return vs[i][0]+"\x00"+vs[i][1] < vs[j][0]+"\x00"+vs[j][1] })
+				k := [3]string{eco, fp, c}
+				if old, ok := s.files[k]; ok && fmt.Sprint(old) != fmt.Sprint(vs) {
+					consistent = false
+				}
+				s.files[k] = vs
+			}
+		}
 	}
-	arts := layerArtifacts(idx, digests)
 	for i := range layers {
-		record(layers[i], arts[i])
+		record(layers[i], idx, digests[i])
 	}
-	flatPkgs := layerArtifacts(fl, []string{flatDigest})[0]
-	record(flatAbs, flatPkgs)
+	for ei, name := range ecoNames[:len(ecoNames)-1] {
+		for i := range layers {
+			if len(ecoLayerPkgs(idx, ei, digests[i])) > 0 {
+				r.Count("e2e:ecosystem-with-packages:" + name)
+				break
+			}
+		}
+	}
+	record(flatAbs, fl, flatDigest)
+	for _, m := range distSeen {
+		if len(m) > 1 {
+			distStable = false
+		}
+	}
+	for _, oe := range osEcos {
+		for _, l := range layers {
+			if l.hides(oe.DistFile) {
+				distStable = false
+			}
+		}
+	}
 	// a scanner whose answer depends on more than (path, content) is outside the model:
 	// every file the table knows must have been reported wherever it occurs
-	check := func(l absLayer, pkgs []*claircore.Package) {
-		have := map[string]bool{}
-		for _, p := range pkgs {
-			have[p.Filepath] = true
-		}
-		for _, e := range l.Entries {
-			if e.Dir || isWhiteoutPath(e.Path) {
-				continue
+	check := func(l absLayer, res indexResult, digest string) {
+		for _, ei := range fileEcoIdx {
+			have := map[string]bool{}
+			for _, p := range ecoLayerPkgs(res, ei, digest) {
+				have[p.Filepath] = true
 			}
-			if _, ok := s.files[[2]string{e.Path, e.CID}]; ok && !have[e.Path] {
-				consistent = false
+			for _, e := range l.Entries {
+				if e.Dir || isWhiteoutPath(e.Path) {
+					continue
+				}
+				if _, ok := s.files[[3]string{ecoNames[ei], e.Path, e.CID}]; ok && !have[e.Path] {
+					consistent = false
+				}
 			}
 		}
 	}
 	for i := range layers {
-		check(layers[i], arts[i])
+		check(layers[i], idx, digests[i])
 	}
-	check(flatAbs, flatPkgs)
+	check(flatAbs, fl, flatDigest)
 	if !consistent {
 		r.Count("e2e:model-line-skipped:scanner-depends-on-layer-context")
-		return false
+		return e2eModel{DistStable: distStable}
 	}
 
 	// the line
@@ -335,14 +563,25 @@ func opE2EModel(r *hx.Run, sc *scenario, idx, fl indexResult, digests []string, 
 	for _, c := range oc {
 		tab = append(tab, "O~"+c+"~"+strings.Join(s.os[c], "+"))
 	}
-	var fk [][2]string
+	var fk [][3]string
 	for k := range s.files {
 		fk = append(fk, k)
 	}
-	sort.Slice(fk, func(i, j int) bool { return fk[i][0]+"\x00"+fk[i][1] < fk[j][0]+"\x00"+fk[j][1] })
+	sort.Slice(fk, func(i, j int) bool { return strings.Join(fk[i][:], "\x00") < strings.Join(fk[j][:], "\x00") })
 	for _, k := range fk {
-		v := s.files[k]
-		tab = append(tab, "F~"+k[0]+"~"+k[1]+"~"+v[0]+"~"+v[1])
+		for _, v := range s.files[k] {
+			tab = append(tab, "F~"+k[0]+"~"+k[1]+"~"+k[2]+"~"+v[0]+"~"+v[1])
+		}
+	}
+	var dk [][3]string
+	for k := range s.dists {
+		dk = append(dk, k)
+	}
+	sort.Slice(dk, func(i, j int) bool { return strings.Join(dk[i][:], "\x00") < strings.Join(dk[j][:], "\x00") })
+	for _, k := range dk {
+		if s.dists[k] != "-" {
+			tab = append(tab, "D~"+k[0]+"~"+k[1]+"~"+k[2]+"~"+s.dists[k])
+		}
 	}
 	table := "-"
 	if len(tab) > 0 {
@@ -364,28 +603,64 @@ func opE2EModel(r *hx.Run, sc *scenario, idx, fl indexResult, digests []string, 
 		}
 		ls = append(ls, l.Hash+";"+enc)
 	}
-	op := "e2e " + strings.Join(s.dbs, ",") + " " + table + " " + strings.Join(ls, "|")
+	var osdbs, rheldbs []string
+	for _, oe := range osEcos {
+		if oe.Rhel {
+			rheldbs = append(rheldbs, oe.DB+"@"+oe.DistFile)
+		} else {
+			osdbs = append(osdbs, oe.DB+"@"+oe.DistFile)
+		}
+	}
+	op := "e2e " + strings.Join(osdbs, ",") + " " + strings.Join(rheldbs, ",") + " " + strings.Join(fileEcoNames(), ",") + " " + table + " " + strings.Join(ls, "|")
 	if strings.ContainsAny(table+strings.Join(ls, ""), " \t") {
 		r.Count("e2e:model-line-skipped:blank-in-field")
-		return false
+		return e2eModel{DistStable: distStable}
 	}
 
 	// the implementation's answer
-	var ip, mp []string
+	var ip, mp, dp []string
 	for id, p := range idx.Report.Packages {
 		for _, e := range idx.Report.Environments[id] {
-			ip = append(ip, identityStr(p)+"@"+e.PackageDB)
+			ip = append(ip, identityStr(p)+"@"+absDB(e.PackageDB)+"#"+distName(idx.Report.Distributions[e.DistributionID]))
 		}
 	}
-	for _, p := range flatPkgs {
-		mp = append(mp, identityStr(p)+"@"+p.PackageDB)
+	for _, ei := range append([]int{0, 1, 2, 3}, fileEcoIdx...) {
+		for _, p := range ecoLayerPkgs(fl, ei, flatDigest) {
+			mp = append(mp, identityStr(p)+"@"+absDB(p.PackageDB))
+		}
+	}
+	for _, rh := range []bool{false, true} {
+		for _, oe := range osEcos {
+			if oe.Rhel != rh {
+				continue
+			}
+			ds := ecoLayerDists(fl, oe.EcoIdx, flatDigest)
+			var d *claircore.Distribution
+			if len(ds) > 0 {
+				d = ds[0]
+			}
+			b := "0"
+			if rh {
+				b = "1"
+			}
+			dp = append(dp, b+":"+oe.DB+"="+distName(d))
+		}
 	}
 	tame := tameGo(s, layers)
-	ans := fmt.Sprintf("tame=%v idx=%s img=%s", tame, strings.Join(sortDedup(ip), ","), strings.Join(sortDedup(mp), ","))
+	if sharedAcrossEcos(s, layers) {
+		// a package id shared by two ecosystems: the finished report depends on which coalescer
+		// goroutine finished last (finding lang-shared-id-across-ecosystems)
+		r.Count("e2e:model-line-skipped:report-depends-on-goroutine-order")
+		return e2eModel{DistStable: distStable}
+	}
+	ans := fmt.Sprintf("tame=%v idx=%s img=%s dist=%s", tame, strings.Join(sortDedup(ip), ","), strings.Join(sortDedup(mp), ","), strings.Join(dp, ","))
 	r.Op(op, ans, len(layers) > 1)
 	r.Count(fmt.Sprintf("e2e:model-line:tame=%v", tame))
+	if !tame {
+		r.Count("e2e:not-Tame:" + tameClause(s, layers))
+	}
 	if sc.Tame && !tame {
 		r.Count("e2e:generator-tame-but-not-Tame:" + tameClause(s, layers))
 	}
-	return tame
+	return e2eModel{Tame: tame, DistStable: distStable}
 }
